@@ -21,7 +21,8 @@ class FixedProvider(object):
     order is decided by `order_rng`; optional pause insertion and a forced-success mode"""
 
     def __init__(self, defn, lang, inputs, outcome_seed, order_rng, pause_at=None, all_succeed=False,
-                 fifo=False):
+                 fifo=False, by_route=False):
+        self.by_route = by_route
         self.defn, self.lang, self.inputs = defn, lang, inputs
         self.outcome_seed, self.order, self.pause_at = outcome_seed, order_rng, pause_at
         self.all_succeed = all_succeed
@@ -90,7 +91,8 @@ class FixedProvider(object):
                     self.play({"op": "report", "task": key[0], "route": key[1], "status": "running", "result": None})
                 v = self.visits.get(key, 0)
                 self.visits[key] = v + 1
-                st, res = self.outcome(key[0], v if key[2] is None else (v, key[2]))
+                vv = v if key[2] is None else (v, key[2])
+                st, res = self.outcome(key[0], (key[1], vv) if self.by_route else vv)
                 opd = {"op": "report", "task": key[0], "route": key[1], "status": st, "result": res}
                 if key[2] is not None:
                     a = acc.setdefault((key[0], key[1]), {})
@@ -178,7 +180,7 @@ def mon_C08(s, k=3):
             return [V("order run raised %s: %s" % (type(e).__name__, str(e)[:100]), 0)]
         runs.append(p)
     a = runs[0].summary()
-    clash = any(v > 1 for v in publish_names(s).values()) or any(n in ("x", "n", "d") for n in publish_names(s))
+    clash = any(v > 1 for v in publish_names(s).values())
     for p in runs[1:]:
         b = p.summary()
         if a["status"] != b["status"]:
@@ -210,7 +212,7 @@ def mon_C09_twin(s):
     except Exception as e:
         return [V("twin base run raised %s" % type(e).__name__, 0)]
     a = base.summary()
-    clash = any(v > 1 for v in publish_names(s).values()) or any(n in ("x", "n", "d") for n in publish_names(s))
+    clash = any(v > 1 for v in publish_names(s).values())
     out = []
     for pos in range(0, min(base.completions + 1, 6)):
         p = FixedProvider(defn, lang, inputs, seed, random.Random(1), pause_at=pos, fifo=True)
@@ -251,7 +253,7 @@ def mon_C17_twin(s):
     if any(t.get("retry") is not None or t.get("with") is not None for t in defn["tasks"]):
         return []
     names = publish_names(s)
-    if any(v > 1 for v in names.values()) or any(n in ("x", "n", "d") for n in names):
+    if any(v > 1 for v in names.values()):
         return []     # D7
     # conditions on failure would legitimately route a clean run differently
     for t in defn["tasks"]:
@@ -259,7 +261,7 @@ def mon_C17_twin(s):
             if tr["when"] not in (None, {"fn": "succeeded"}):
                 return []
     seed = core.dumps(defn)
-    first = FixedProvider(defn, lang, inputs, seed, random.Random(1), fifo=True)
+    first = FixedProvider(defn, lang, inputs, seed, random.Random(1), fifo=True, by_route=True)
     clean = FixedProvider(defn, lang, inputs, seed, random.Random(1), fifo=True, all_succeed=True)
     try:
         first.run()
